@@ -260,6 +260,38 @@ Theorem C16_recompile_plays : forall c' tbl prog f1 f2 mn mx ch1 ch2 o,
 Proof. exact recompile_plays. Qed.
 Print Assumptions C16_recompile_plays.
 
+(* (8') ... for EVERY tree a first TaborProgram(...) can leave behind (`left_behind prog prog'`: the program itself
+   — tuple-length error —, its encapsulated root — single mode, failed asserts —, or the root over prepare's state
+   after ANY number k of completed iterations, any limits, any fuel — prepare raised at iteration k+1 or returned, the
+   final asserts / parsers / sampling do not touch the tree): the tree is in the input domain again and plays the
+   same leaf sequence, so an accepted second compilation (any configuration) plays the original specification *)
+Theorem C16_left_behind_ok : forall prog prog', good prog = true -> left_behind prog prog' ->
+  good prog' = true /\ flatten prog' = flatten prog.
+Proof. exact left_behind_ok. Qed.
+Print Assumptions C16_left_behind_ok.
+
+Theorem C16_recompile_plays_any : forall c' tbl prog prog' o,
+  good prog = true ->
+  (forall w1 w2 d1 d2, nth_error tbl w1 = Some d1 -> nth_error tbl w2 = Some d2 -> wf_cls d1 = wf_cls d2 -> d1 = d2) ->
+  (forall w d, nth_error tbl w = Some d -> (wf_len d == inject_Z (wf_n d))%Q) ->
+  left_behind prog prog' ->
+  compile c' tbl prog' = Ok o ->
+  exists s, spec c' tbl prog = Some s /\ expand o = Some s.
+Proof. exact recompile_plays_any. Qed.
+Print Assumptions C16_recompile_plays_any.
+
+(* (8'') the executable model of the in-place effect, Model.tree_after_with — which the correspondence check compares
+   with the tree found in the real Loop object after a first TaborProgram(...) (cases CTwice) — only produces
+   `left_behind` trees; so for a good program the tree after any first compilation is good and plays the same leaves *)
+Theorem C16_tree_after_left_behind : forall ff pf c prog, left_behind prog (tree_after_with ff pf c prog).
+Proof. exact tree_after_left_behind. Qed.
+Print Assumptions C16_tree_after_left_behind.
+
+Theorem C16_tree_after_ok : forall c prog, good prog = true ->
+  good (tree_after c prog) = true /\ flatten (tree_after c prog) = flatten prog.
+Proof. exact tree_after_ok. Qed.
+Print Assumptions C16_tree_after_ok.
+
 Theorem C16_recompile_nonvacuous : exists ch1 ch2 o,
   depth (root_of ex_prog) >? 1 = true /\ l_rep (root_of ex_prog) =? 1 = true /\
   fab fab_fuel 2 [] (l_ch (root_of ex_prog)) = Ok ch1 /\ prep prep_fuel 3 5 [] ch1 = Ok ch2 /\
